@@ -111,12 +111,71 @@ def expect_cases(eng: symx.Engine, got: Any, cases: list[tuple[Any, Any]], what:
             raise symx.Violation(what, None)
 
 
+# tunnels built earlier in the same process (vmnet builds many): representative predecessors
+PREVIOUS = [None, ("internetip", "externalip", "ip"), ("custom", "custom", "ip"), ("nic", "modeconfig", "dynip")]
+_pristine: dict[str, Any] = {}
+
+
+def _fresh_class_state() -> None:
+    """Every path (and every replay) starts from the class-level state the module was imported with."""
+    import copy
+
+    from avocado_i2n.vmnet.tunnel import VMTunnel
+
+    if not _pristine:
+        _pristine["attrs"] = {k: copy.deepcopy(v) for k, v in vars(VMTunnel).items() if isinstance(v, (dict, list, set))}
+    for k, v in _pristine["attrs"].items():
+        setattr(VMTunnel, k, copy.deepcopy(v))
+
+
+def _concrete_nodes(n_if: int) -> list[Any]:
+    from avocado_i2n.vmnet.node import VMNode
+
+    class CNet:
+        def __init__(self, n: str) -> None:
+            self.net_ip, self.netmask = f"10.{n}.0.0", "255.255.0.0"
+
+    class CIf:
+        def __init__(self, n: str) -> None:
+            self.ip, self.netconfig = f"10.{n}.0.1", CNet(n)
+
+    nodes = []
+    for idx, name in enumerate(("vm1", "vm2")):
+        node = VMNode(Platform(name))
+        # the role -> nic mapping is per vm: the second vm names its nics differently and swaps the roles' positions
+        names = [f"nic{i}" for i in range(n_if)] if idx == 0 else [f"b{n_if - 1 - i}" for i in range(n_if)]
+        for i, nic in enumerate(names):
+            node.interfaces[nic] = CIf(f"{idx + 1}{i}")
+        node.params["lan_nic"] = names[0]
+        node.params["internet_nic"] = names[-1]
+        nodes.append(node)
+    return nodes
+
+
+def _build_previous(which: int) -> None:
+    from avocado_i2n.vmnet.tunnel import VMTunnel
+
+    if PREVIOUS[which] is None:
+        return
+    lt, rt, pt = PREVIOUS[which]
+    a, b = _concrete_nodes(2)
+    local = {"type": lt, "nic": "lan_nic", "lnet": "172.26.0.0", "lmask": "255.255.0.0", "rnet": "172.27.0.0", "rmask": "255.255.255.0"}
+    remote = {"type": rt, "nic": "lan_nic", "modeconfig_ip": "172.31.0.1"}
+    try:
+        VMTunnel("vpn0", a, b, local, remote, {"type": pt, "nic": "internet_nic"}, None)
+    except (ValueError, KeyError):
+        pass
+
+
 def _make():
     from avocado_i2n.vmnet.tunnel import VMTunnel
 
     col = common.Collector()
 
     def fn(eng: symx.Engine) -> Any:
+        _fresh_class_state()
+        previous = eng.pick(len(PREVIOUS), "previous tunnel")
+        _build_previous(previous)
         lt = (LOCALS + ["bogus"])[eng.pick(4, "local")]
         rt = (REMOTES + ["bogus"])[eng.pick(4, "remote")]
         pt = (PEERS + ["bogus"])[eng.pick(3, "peer")]
@@ -142,7 +201,7 @@ def _make():
                 lid = "" if eng.pick(2, "left_id_empty") == 0 else symx.SymAtom("left_id", "id")
                 rid = "" if eng.pick(2, "right_id_empty") == 0 else symx.SymAtom("right_id", "id")
                 auth.update({"psk": psk, "left_id": lid, "right_id": rid})
-        combo = {"local": lt, "remote": rt, "peer": pt, "auth": at, "ifaces": n_if, "left_id_empty": lid == "", "right_id_empty": rid == ""}
+        combo = {"local": lt, "remote": rt, "peer": pt, "auth": at, "ifaces": n_if, "left_id_empty": lid == "", "right_id_empty": rid == "", "previous": previous}
         valid = "bogus" not in (lt, rt, pt, at)
         try:
             tun = VMTunnel("vpn1", n1, n2, local1, remote1, peer1, auth)
@@ -323,23 +382,9 @@ def replay(data: dict[str, Any]) -> tuple[bool, str]:
     from avocado_i2n.vmnet.tunnel import VMTunnel
 
     combo = data["combo"]
-
-    class CNet:
-        def __init__(self, n: str) -> None:
-            self.net_ip, self.netmask = f"10.{n}.0.0", "255.255.0.0"
-
-    class CIf:
-        def __init__(self, n: str) -> None:
-            self.ip, self.netconfig = f"10.{n}.0.1", CNet(n)
-
-    nodes = []
-    for idx, name in enumerate(("vm1", "vm2")):
-        node = VMNode(Platform(name))
-        for i in range(combo["ifaces"]):
-            node.interfaces[f"nic{i}"] = CIf(f"{idx + 1}{i}")
-        node.params["lan_nic"] = "nic0"
-        node.params["internet_nic"] = f"nic{combo['ifaces'] - 1}"
-        nodes.append(node)
+    _fresh_class_state()
+    _build_previous(combo.get("previous", 0))
+    nodes = _concrete_nodes(combo["ifaces"])
     local1 = {"type": combo["local"], "nic": "lan_nic", "lnet": "172.16.0.0", "lmask": "255.255.0.0", "rnet": "172.17.0.0", "rmask": "255.255.255.0"}
     remote1 = {"type": combo["remote"], "nic": "lan_nic", "modeconfig_ip": "172.30.0.1"}
     peer1 = {"type": combo["peer"], "nic": "internet_nic"}
